@@ -1,5 +1,6 @@
 import BS.Properties.C10
 import BS.Properties.C10m
+import BS.Properties.C10e
 #print axioms BS.KV.sortKV_perm
 #print axioms BS.KV.sortKV_sorted
 #print axioms BS.KV.merge2_perm
@@ -17,3 +18,7 @@ import BS.Properties.C10m
 #print axioms BS.Merge.leftmost_legal
 #print axioms BS.Merge.combine_then_reduce_machine
 #print axioms BS.Merge.sort_runs_then_merge_machine
+#print axioms BS.Merge.no_failing_input
+#print axioms BS.Merge.rows_before_error_correct
+#print axioms BS.Merge.error_reported
+#print axioms BS.Merge.clean_eof_is_complete
